@@ -24,7 +24,7 @@ SCHED_PATH = ("sched",)
 LEVEL = "exploration"
 QUICK_N = 400
 SCENARIO_TIMEOUT = 180
-PROBES = ["tie_mode", "score_exactly_zero", "quantised_scores", "best_ranked_rows_are_decoys", "another_collection_analysed_before_in_process", "dedup_off", "rollup_off", "decoys_off", "multi_collection", "no_prefix_multi", "empty_string_prefix",
+PROBES = ["tie_mode", "score_exactly_zero", "quantised_scores", "best_ranked_rows_are_decoys", "another_collection_analysed_before_in_process", "dedup_off", "rollup_off", "decoys_off", "multi_collection", "no_prefix_multi", "empty_string_prefix", "lower_is_better_scores", "failed_attempt_with_same_arguments_first",
           "level_cols", "parquet", "spill_files>=2", "group_cut_by_chunk", "merge_chunk_small", "workers>1",
           "switches>0", "listing_permuted", "rollup_tool", "rollup_tool_multi_root", "degenerate_level",
           "conf_chunk_1", "level_batch_flush"]
@@ -110,6 +110,9 @@ def make_scenario(seed):
         "prior": {"table": W.gen_conf_table_params(rng, file_id=7, small=True), "score_seed": rng.getrandbits(32)}
         if rng.random() < 0.2 else None,
     }
+    if not rollup_tool:
+        scn["lower_is_better"] = rng.random() < 0.25
+        scn["failed_attempt_first"] = rng.random() < 0.25
     if rollup_tool:
         scn["tie_mode"] = False
         if scn["score_mode"] == "quantised":
@@ -273,6 +276,20 @@ def _degenerate(records, conf, level_cols):
     return None
 
 
+def _flip_score_column(raw):
+    lines = raw.decode().split("\n")
+    if not lines or "score" not in lines[0].split("\t"):
+        return raw
+    j = lines[0].split("\t").index("score")
+    out = [lines[0]]
+    for ln in lines[1:]:
+        f = ln.split("\t")
+        if len(f) > j and f[j]:
+            f[j] = f[j][1:] if f[j].startswith("-") else "-" + f[j]
+        out.append("\t".join(f))
+    return "\n".join(out).encode()
+
+
 def run_scenario(scn, workdir):
     tables = [W.build_conf_table(p) for p in scn["tables"]]
     scores = [W.gen_scores(t, f"{scn['score_seed']}|{i}", tie_mode=scn["tie_mode"], mode=scn.get("score_mode", "plain"),
@@ -290,9 +307,15 @@ def run_scenario(scn, workdir):
         ptab = W.build_conf_table(pt)
         W.run_assign_confidence([ptab], [W.gen_scores(ptab, scn["prior"]["score_seed"])], dict(conf, prefixes=None), workdir,
                                 "prior", fmt=scn["format"], row_group=scn.get("row_group"), max_workers=1)
-    res = W.run_assign_confidence(tables, scores, conf, workdir, "run", fmt=scn["format"], row_group=scn.get("row_group"),
+    lower = bool(scn.get("lower_is_better"))
+    res = W.run_assign_confidence(tables, [[-v for v in s] for s in scores] if lower else scores, conf, workdir, "run",
+                                  fmt=scn["format"], row_group=scn.get("row_group"),
                                   sched_desc=scn.get("sched"), knobs=kn, glob_seed=scn.get("glob_seed"),
-                                  max_workers=scn["max_workers"])
+                                  max_workers=scn["max_workers"], descs=[False] * len(tables) if lower else None,
+                                  fail_first=bool(scn.get("failed_attempt_first")))
+    if lower:
+        # the caller supplied lower-is-better values (-s): results must be those of s, written with the supplied sign
+        res.files = {k: _flip_score_column(v) for k, v in res.files.items()}
     sch = res.sched
     sstats = sch.stats()
     n_rows = [len(t["rows"]) for t in tables]
@@ -322,6 +345,8 @@ def run_scenario(scn, workdir):
         "multi_collection": int(len(tables) > 1),
         "no_prefix_multi": int(len(tables) > 1 and sum(1 for pf in (conf.get("prefixes") or [None] * len(tables)) if not pf) > 1),
         "empty_string_prefix": int(any(pf == "" for pf in (conf.get("prefixes") or []))),
+        "lower_is_better_scores": int(lower),
+        "failed_attempt_with_same_arguments_first": int(bool(res.first_attempt and res.first_attempt.startswith("failed"))),
         "level_cols": int(bool(level_cols)),
         "parquet": int(scn["format"] == "parquet"),
         "spill_files>=2": int(ccs < max(n_rows)),
@@ -336,7 +361,8 @@ def run_scenario(scn, workdir):
     out = {
         "status": "ok",
         "digest": digest([scn["tables"], scn["score_seed"], scn.get("score_mode"), scn.get("top_decoys"), scn["tie_mode"], conf, scn["format"], scn.get("row_group"), kn,
-                          scn["max_workers"], world.sched_digest(sch), scn.get("glob_seed")]),
+                          scn["max_workers"], world.sched_digest(sch), scn.get("glob_seed"), scn.get("lower_is_better"),
+                          scn.get("failed_attempt_first")]),
         "nontrivial": bool(probes["spill_files>=2"] or multi_groups > 0),
         "probes": probes,
         "sched": sstats,
